@@ -26,7 +26,7 @@ import os
 import struct
 import sys
 
-from common import VERIF, ALLOWED_AXIOMS, audit, lake_build
+from common import VERIF, LEAN, ALLOWED_AXIOMS, audit, lake_build, sh
 
 sys.path.insert(0, os.path.join(VERIF, 'translate'))
 
@@ -550,23 +550,6 @@ class Session:
         self.disagreements = []
         self.stats = {}
         self.cov = {}
-        # defects found by the translator: a key is attached to a failure only if the payload contains the defect's trigger
-        self.dup_keys = {}
-        for d in self.gen['defects']:
-            if d['kind'] == 'duplicate-attribute':
-                self.dup_keys.setdefault((d['tre'], d['class'], d['attr']), d['key'])
-        for n, t in self.tres.items():
-            self._mark_dups(n, t['data_type'], t['tree'])
-
-    def _mark_dups(self, tre, cname, n):
-        seen = set()
-        for f in rec_fields(n):
-            node = f['node'][2] if f['node'][0] == 'cond' else f['node']
-            if f['name'] in seen and (tre, cname, f['name']) in self.dup_keys:
-                f['dup_key'] = self.dup_keys[(tre, cname, f['name'])]
-            seen.add(f['name'])
-            if node[0] == 'loop' and f.get('child'):
-                self._mark_dups(tre, f['child'], node[2])
 
     # ---- proof side
     def prove(self):
@@ -599,6 +582,13 @@ class Session:
                                               | {'Tre.' + n[len('Sarpy.Gen.Tre.'):] for n in t2})
             chk.coverage['axioms_used'] = sorted(set(chk.coverage.get('axioms_used', [])) | {a for v in allt.values() for a in v})
         chk.coverage['checker_cmd_c13t'] = 'cd lean && lake build ' + ' '.join(TARGETS) + ' && lake env lean .lake/audit/Audit_Sarpy_Props_C13t.lean'
+        if ok and self.tier == 'thorough':
+            mods = ['SarpyModel.Props.C13x', 'SarpyModel.Props.C13t', 'SarpyModel.Gen.TreTables']
+            rc, out, err = sh(['lake', 'env', 'leanchecker'] + mods, cwd=LEAN, timeout=3000)
+            chk.coverage['leanchecker_c13t'] = {'modules': mods, 'ok': rc == 0}
+            chk.coverage['checker_cmd_c13t'] += ' && lake env leanchecker ' + ' '.join(mods)
+            if rc != 0:
+                broken.append('leanchecker rejects ' + ' '.join(mods) + ': ' + (out + err)[-400:])
         # a TRE that was translated when the snapshot was taken and no longer is: the obligation "every registered TRE has a
         # kernel-checked description" is broken for it
         snap = self.snapshot or {'tres': {}, 'untranslated': {}}
